@@ -85,6 +85,9 @@ def gen_cases(tier: str, seed: int):
             yield {"scripts": [s1, [["sel", 0], ["ins_sh", 0]]], "order": [0] * 5 + [1] + [0] * 4 + [1]}
     for variant in ("begin_insert_close", "begin_insert_commit_close", "begin_close"):
         yield {"kind": "close_in_txn", "variant": variant}
+    for failing in ("conversion", "constraint", "division"):
+        for end in ("commit", "rollback"):
+            yield {"kind": "runtime_failure_in_txn", "failing": failing, "end": end}
     npairs = 40 if tier == "quick" else 1200
     for _ in range(npairs):
         scripts = [_gen_script(r, 4), _gen_script(r, 4)]
@@ -188,9 +191,48 @@ def _close_in_txn(case: dict, env: core.Env) -> None:
         fs.duck_conn.close()
 
 
+def _runtime_failure_in_txn(case: dict, env: core.Env) -> None:
+    """A statement that fails at run time (not at bind time) inside a transaction fails alone: the transaction goes on, and
+    COMMIT publishes the statements that succeeded."""
+    fs = core.new_fs()
+    try:
+        a, b = fs.connect("db1", "s1"), fs.connect("db1", "s1")
+        ka, kb = a.cursor(), b.cursor()
+        ka.execute("CREATE TABLE RT (ID INT PRIMARY KEY, V INT)")
+        ka.execute("INSERT INTO RT VALUES (1, 10)")
+        ka.execute("BEGIN")
+        ka.execute("INSERT INTO RT VALUES (2, 20)")
+        bad = {"conversion": "SELECT 'a'::INT", "constraint": "INSERT INTO RT VALUES (1, 99)", "division": "SELECT 1 / (V - 10) FROM RT WHERE ID = 1"}[case["failing"]]
+        o = core.run_stmt(ka, bad)
+        if o["ok"]:
+            return  # the statement did not fail here: nothing to examine
+        env.count("cmp_session_view")
+        o2 = core.run_stmt(ka, "INSERT INTO RT VALUES (3, 30)")
+        if not o2["ok"]:
+            env.witness("C13/runtime-failure-in-transaction/later-statement-rejected", f"after {bad!r} failed, the next statement of the transaction: {o2['exc']['cls']}: {o2['exc']['msg'][:120]}")
+        end = case["end"]
+        o3 = core.run_stmt(ka, end.upper())
+        env.count("cmp_committed_view")
+        got = sorted(kb.execute("SELECT ID FROM RT").fetchall())
+        want = [(1,), (2,), (3,)] if end == "commit" else [(1,)]
+        if not o3["ok"]:
+            env.witness(f"C13/runtime-failure-in-transaction/{end}-rejected", str(o3["exc"])[:200])
+        elif got != want and end == "commit":
+            told = "ok" if o2["ok"] else "rejected"
+            env.witness("C13/runtime-failure-in-transaction/commit-reports-success-but-work-is-gone",
+                        f"BEGIN; INSERT 2; {bad} (fails); INSERT 3 ({told}); COMMIT -> {o3['rows']}; another session reads {got}, expected at least the rows that succeeded")
+        elif got != want:
+            env.witness("C13/runtime-failure-in-transaction/rollback-left-trace", f"{got}")
+        env.nontrivial(("runtime_failure_in_txn", case["failing"], end))
+    finally:
+        fs.duck_conn.close()
+
+
 def run_case(case: dict, env: core.Env) -> None:
     if case.get("kind") == "close_in_txn":
         return _close_in_txn(case, env)
+    if case.get("kind") == "runtime_failure_in_txn":
+        return _runtime_failure_in_txn(case, env)
     conns, curs, raw = _state["conns"], _state["curs"], _state["raw"]
     scripts, order = case["scripts"], case["order"]
     k = len(scripts)
